@@ -70,6 +70,14 @@ class Driver:
                     res.count("hidden_keys_added")
                 except Exception:
                     pass
+            # ... and the same inside the key-value containers (METADATA, VALIDATION, VALUES, CONNECTIONOPTIONS, CONFIG)
+            kvs = [v for _, o in objs for k, v in o.items() if isinstance(v, dict) and (k == "config" or k in vocab.kv_keys())]
+            for kv in self.r.sample(kvs, min(len(kvs), 2)):
+                try:
+                    kv[self.r.choice(["__note__", "__x__", "__comments__"])] = self.r.choice(["hidden text", "1"])
+                    res.count("hidden_keys_added_in_key_value_blocks")
+                except Exception:
+                    pass
         via = ("dumps", "printer", "dump", "save")[self.n % 4]
         PC.take()
         from .C16 import flip_quote
@@ -162,10 +170,11 @@ def _run(ctx, drv):
             continue
         members = a.info["members"] if a.kind == "enum" and k != "projection" else [None]
         for m in members:
-            node, it = gen.vocab_doc(r, o, k, ai, "middle", member=m, enum_case=r.choice(["upper", "lower"]) if m is not None else None)
-            for mk in (edits.mkdict, dict):
-                d = expect.build_doc([node], mk)
-                drv.emit(d, drv.opts(), "vocab", extra={"slot": f"{o}.{k}:{a.kind}"})
+            for case in (("upper", "lower", "title", "mixed") if isinstance(m, str) else (None,)):
+                node, it = gen.vocab_doc(r, o, k, ai, "middle", member=m, enum_case=case)
+                for mk in (edits.mkdict, dict):
+                    d = expect.build_doc([node], mk)
+                    drv.emit(d, drv.opts(), "vocab", extra={"slot": f"{o}.{k}:{a.kind}" + (f"={it.value}" if m is not None else "")})
     # ---- (1b) the same string under different keywords: an enumerated word of one keyword is free text for another; the lexical
     #      class must follow the keyword, in either print order, within one dumps call and on a reused printer
     hosts = [("class", "text"), ("class", "expression"), ("cluster", "group"), ("layer", "filter"), ("label", "text")]
